@@ -1,4 +1,4 @@
-from datetime import date, datetime, timedelta
+from datetime import date, datetime, timedelta, timezone
 from typing import Any, Dict, List
 from uuid import UUID, uuid4
 
@@ -199,7 +199,7 @@ class Generator(SchemaVisitor[Any]):
     def visit_datetime(self, schema: DateTimeSchema, **kwargs: Any) -> datetime:
         if schema.props.value is not Nil:
             return schema.props.value
-        return datetime.utcnow()
+        return datetime.now(timezone.utc).replace(tzinfo=None)
 
     def visit_uuid4(self, schema: UUID4Schema, **kwargs: Any) -> UUID:
         if schema.props.value is not Nil:
